@@ -74,6 +74,12 @@ def run(ck: Checker):
         fn = [n for n in cfg.nodes if header_expr(n) is not None and any(c is fc for c in calls_in(header_expr(n)))]
         if fn and path_avoiding(cfg, [cfg.entry], {cfg.exit_return}, avoid={fn[0].id}) is not None:
             probs.append('a path through _incref registers no finaliser: that reference is never given back')
+        # the finaliser gives back what was taken: it is registered only after the increment has succeeded -- registered
+        # first, a failing increment (connection refused, EMFILE) leaves a finaliser that later decrements a reference
+        # this proxy never took, i.e. somebody else's (the object is destroyed under a live proxy)
+        incs_ = {n.id for n in cfg.nodes if _inc(n)}
+        if fn and incs_ and path_avoiding(cfg, [cfg.entry], {fn[0].id}, avoid=incs_) is not None:
+            probs.append(f'the finaliser is registered (L{fn[0].lineno}) before the increment has succeeded: when the increment fails, the half-built proxy still gives back a reference — one it never took')
         # C13-6
         ep = kwarg(fc, 'exitpriority')
         ok6 = ep is not None and isinstance(ep, ast.Constant) and isinstance(ep.value, int) and not isinstance(ep.value, bool)
